@@ -518,3 +518,24 @@ def failing_items(items, **kw):
         return [(items[0][0], _J.short_err(c.stderr, 700))]
     mid = len(items) // 2
     return failing_items(items[:mid], **kw) + failing_items(items[mid:], **kw)
+
+
+RUN_COUNTS = [15, 16, 17, 31, 32, 33, 63, 64, 65, 127, 128, 129, 133, 140, 200, 255, 256, 257, 300]
+
+
+def run_count_specs(counts=None):
+    """Enums with exactly k runs (alternating single values and pairs) for k around every power of two up to 300:
+    code that switches strategy (bisection, chunking, narrower index types) above some number of runs."""
+    out = []
+    for k in (counts or RUN_COUNTS):
+        vals = []
+        cur = -7
+        for i in range(k):
+            vals.append(cur)
+            if i % 2:
+                cur += 1
+                vals.append(cur)
+            cur += 3
+        r = "i16" if k < 200 else "i32"
+        out.append(scope_spec(r, vals))
+    return out
